@@ -30,7 +30,8 @@ RULE = ('sets of 2-5 database chemicals (Water, Ethanol, Methanol, Propanol, Hex
         '(gamma_i = 1 at x_i = 1 to 1e-9, Gibbs-Duhem by central finite differences to 1e-5 relative along every e_a - e_b, '
         'all permutations n <= 4, no-group => exactly 1, ideal models = 1, x untouched, .f = __call__, and one float64 buffer '
         'rewritten in place between calls at the same T: obj(x,T) = obj.f(x,T,*args) = obj(x.copy(),T) at every step) is evaluated on every case; '
-        'history cases (call / call with a copy / .f / in-place rewrite, 1-2 caller arrays, 3-8 operations on ONE object) are run '
+        'history cases (call / call with a copy / .f / in-place rewrite of the composition / in-place rewrite of a previously RETURNED '
+        'array, 1-2 caller arrays, 3-10 operations on ONE object, group objects and the ideal fallback) are run '
         'exactly and compared with run_hist '
         'and must hold.  non-trivial = '
         'the group path was taken (object is not the ideal fallback) and the run returned values; distinct = case hash')
@@ -275,17 +276,22 @@ def gen_cases(rng, tier):
         n = rng.choice([2, 3, 3, 4])
         ng = rng.choice([0, 0, 1]) if n > 2 else 0
         names = rng.sample(GROUPED, n - ng) + rng.sample(NOGROUP, ng)
+        if h % 5 == 4:                                   # at most one member with groups: the ideal fallback object
+            names = rng.sample(GROUPED, rng.choice([0, 1])) + rng.sample(NOGROUP, 2)
+            n = len(names)
         rng.shuffle(names)
         T = rng.choice(TS)
         na = rng.choice([1, 1, 2])
         ops = [['call', 0, True, T], ['set', 0, pos_x(n)], ['call', 0, True, T]] if h % 2 == 0 else []
         for _ in range(rng.randint(2, 5)):
             r = rng.randrange(na)
-            k = rng.choice(['call', 'call', 'callcopy', 'f', 'set', 'set'])
+            k = rng.choice(['call', 'call', 'callcopy', 'f', 'set', 'set', 'setres', 'setres'])
             Tk = T if rng.random() < 0.8 else rng.choice(TS)
             if k == 'call': ops.append(['call', r, True, Tk])
             elif k == 'callcopy': ops.append(['call', r, False, Tk])
             elif k == 'f': ops.append(['f', r, Tk])
+            elif k == 'setres':                          # the caller rewrites in place an array a call returned
+                ops.append(['setres', rng.randrange(3), pos_x(n)]); ops.append(['call', r, True, Tk])
             else: ops.append(['set', r, pos_x(n)])
         cases.append({'kind': 'hist', 'cls': CLASSES[h % 3], 'chems': names, 'arrays': [pos_x(n) for _ in range(na)],
                       'ops': ops, 'si': gen_si(rng), 'quant': rng.choice([64, 16])})
@@ -372,9 +378,11 @@ def exact_call(G, case):
     return obs, data
 
 def exact_hist(G, case):
-    """a history of calls / .f calls / in-place rewrites on ONE object, on exact Fractions"""
+    """a history of calls / .f calls / in-place rewrites (of the caller's arrays and of returned arrays) on ONE
+    object, on exact Fractions"""
     XQ.SI = [(k, F(a), F(b)) for k, a, b in case['si']]
     arrays = [xarray(a) for a in case['arrays']]
+    results = []
     outs = []
     with exact_session(G, case['quant']):
         data = exact_data(G)
@@ -383,18 +391,41 @@ def exact_hist(G, case):
                 try:
                     if op[0] == 'set':
                         arrays[op[1]][:] = xarray(op[2]); outs.append(None); continue
+                    if op[0] == 'setres':
+                        if op[1] < len(results): results[op[1]][:] = xarray(op[2])
+                        outs.append(None); continue
                     arr = arrays[op[1]]
                     if op[0] == 'call':
                         g = G(arr if op[2] else list(arr), XQ(F(op[3])))
                     else:
                         g = G.f(arr, XQ(F(op[2])), *G.args)
+                    results.append(g)
                     outs.append(fvec(g))
                 except ZeroDivisionError:
                     outs.append('ZeroDiv')
                 except UnboundLocalError:
                     outs.append('Unbound')
-        final = {'arrays': [fvec(a) for a in arrays], 'gpsis': fmat(G._group_psis)}
+        final = {'arrays': [fvec(a) for a in arrays], 'results': [fvec(r) for r in results], 'gpsis': fmat(G._group_psis)}
     return outs, final, data
+
+def ideal_hist(G, case):
+    """the same history on an ideal object (real floats: everything is exactly 1.0 or what the caller wrote)"""
+    arrays = [np.array(a, float) for a in case['arrays']]
+    results = []; ops = []; outs = []
+    for op in case['ops']:
+        if op[0] == 'set':
+            arrays[op[1]][:] = op[2]; continue
+        if op[0] == 'setres':
+            if op[1] < len(results): results[op[1]][:] = op[2]
+            ops.append(['setres', op[1], op[2]]); outs.append(None); continue
+        arr = arrays[op[1]]
+        if op[0] == 'call':
+            g = G(arr if op[2] else list(arr), op[3])
+            results.append(g); ops.append(['call', len(arr)]); outs.append([fr_json(frac(v)) for v in g])
+        else:
+            v = G.f(arr, op[2], *G.args)
+            ops.append(['f']); outs.append(fr_json(frac(v)))
+    return {'iops': ops, 'iouts': outs, 'iresults': [[fr_json(frac(v)) for v in r] for r in results]}
 
 def close(a, b, tol):
     a = np.asarray(a, float); b = np.asarray(b, float)
@@ -475,6 +506,8 @@ def _run_impl(case):
     if case['kind'] == 'hist':
         if not out['is_ideal']:
             out['outs'], out['final'], out['data'] = exact_hist(G, case)
+        else:
+            out.update(ideal_hist(G, case))
         return out
     if out['is_ideal']:
         x = real_x(case); before = x_values(x)
@@ -524,10 +557,20 @@ def _coq_case(case, out):
     kind = f'chk_new_kind {cnat(out["nidx"])} {cbool(out["is_ideal"])}'
     if case['kind'] == 'hist':
         if out['is_ideal']:
-            return f'({kind})'
+            def ciop(o):
+                if o[0] == 'call': return f'(QICall {cnat(o[1])})'
+                if o[0] == 'f': return 'QIF'
+                return f'(QISetRes {cnat(o[1])} {qlist(o[2])})'
+            def ciob(o):
+                if o is None: return 'IONone'
+                if isinstance(o, list): return f'(IOArr {cqv(o)})'
+                return f'(IOScalar {q(F(o))})'
+            return (f'({kind} && chk_ideal_hist {clist([ciop(o) for o in out["iops"]])} '
+                    f'{clist([ciob(o) for o in out["iouts"]])} {clist([cqv(r) for r in out["iresults"]])})')
         d = out['data']
         def cop(o):
             if o[0] == 'set': return f'(QSet {cnat(o[1])} {qlist(o[2])})'
+            if o[0] == 'setres': return f'(QSetRes {cnat(o[1])} {qlist(o[2])})'
             if o[0] == 'call': return f'(QCall {cnat(o[1])} {cbool(o[2])} {q(o[3])})'
             return f'(QF {cnat(o[1])} {q(o[2])})'
         def chob(o):
@@ -542,6 +585,7 @@ def _coq_case(case, out):
                 f'{cqv(d["Qs"])} {cqm(d["chemgroups"])} {cqm(d["cQfs"])} {clist(d["index"], cnat)} '
                 f'{clist([qlist(a) for a in case["arrays"]])} {clist([cop(o) for o in case["ops"]])} '
                 f'{clist([chob(o) for o in out["outs"]])} {clist([cqv(a) for a in out["final"]["arrays"]])} '
+                f'{clist([cqv(a) for a in out["final"]["results"]])} '
                 f'{cqm(out["final"]["gpsis"])} {cbool(anyz)})')
     if out['is_ideal']:
         n = len(case['x'])
@@ -581,7 +625,7 @@ def nontrivial(case, out):
     if case['kind'] == 'lgc':
         return out.get('values') is not None
     if case['kind'] == 'hist':
-        return any(isinstance(o, list) for o in out.get('outs', []))
+        return any(isinstance(o, list) for o in out.get('outs', []) + out.get('iouts', []))
     return True
 
 def classify(case, out):
@@ -623,6 +667,21 @@ def oracle(case):
         return (f'raises: {case.get("cls", case["kind"])} model on {case.get("chems")}: {type(ex).__name__}: '
                 f'{str(ex)[:200]}')
 
+def fresh_result_check(label, callf):
+    """an array handed to the caller belongs to the caller: rewriting it in place must not change what the next
+    evaluation returns, and two evaluations must not return overlapping memory"""
+    r1 = callf()
+    if not isinstance(r1, np.ndarray): return None
+    keep = r1.copy()
+    r1 *= 0.5; r1 += 0.25
+    r2 = np.asarray(callf())
+    if np.shares_memory(r1, r2):
+        return f'result-aliased: {label}: two evaluations returned the same memory (caller rewrote the first result in place; the second reads {r2.tolist()})'
+    if not close(r2, keep, 1e-12):
+        return (f'result-aliased: {label}: after the caller rewrote a returned array in place the next evaluation gives '
+                f'{r2.tolist()} instead of {keep.tolist()}')
+    return None
+
 def reuse_buffer_check(G, cls, names, comps, T):
     """obj(x, T) with ONE float64 buffer rewritten in place between calls at the same T must equal
     obj.f(x, T, *obj.args) and obj(fresh copy, T) at every step, and leave the buffer alone."""
@@ -641,7 +700,10 @@ def reuse_buffer_check(G, cls, names, comps, T):
         if not close(g_obj, g_new, 1e-12):
             return (f'history: {cls} model on {names}, one buffer rewritten in place, call {k} at T={T}: obj(x, T) = '
                     f'{g_obj.tolist()} but obj(x.copy(), T) = {g_new.tolist()} (hidden per-object state)')
-    return None
+    xx = np.array(comps[0], float)
+    msg = fresh_result_check(f'{cls} model on {names}, obj(x, T)', lambda: G(xx, T))
+    if msg: return msg
+    return fresh_result_check(f'{cls} model on {names}, obj.f(x, T, *obj.args)', lambda: G.f(xx, T, *G.args))
 
 def _oracle(case):
     e = env(); ac = e['ac']; eq = e['eq']
@@ -651,24 +713,32 @@ def _oracle(case):
         G = build(case)
         cls = case['cls']
         arrays = [np.array(a, float) for a in case['arrays']]
+        results = []
         for k, op in enumerate(case['ops']):
             if op[0] == 'set':
                 arrays[op[1]][:] = op[2]; continue
+            if op[0] == 'setres':
+                if op[1] < len(results) and isinstance(results[op[1]], np.ndarray): results[op[1]][:] = op[2]
+                continue
             arr = arrays[op[1]]; keep = arr.copy()
             T = op[3] if op[0] == 'call' else op[2]
             if op[0] == 'call':
-                g = np.asarray(G(arr if op[2] else list(arr), T), float)
+                g = G(arr if op[2] else list(arr), T)
             else:
-                g = np.asarray(G.f(arr, T, *G.args), float)
+                g = G.f(arr, T, *G.args)
+            results.append(g)
+            g = np.array(g, float)
             ref = np.broadcast_to(np.asarray(G.f(keep.copy(), T, *G.args), float), (len(keep),))
             g = np.broadcast_to(g, (len(keep),))
             if not np.array_equal(arr, keep):
                 return f'x-modified: {cls} model on {case["chems"]}: step {k} changed the caller\'s array'
             if not close(g, ref, 1e-12):
                 return (f'history: {cls} model on {case["chems"]}: step {k} ({op[0]}) at T={T}, x={keep.tolist()} returns '
-                        f'{g.tolist()} but the state-free obj.f on a fresh array gives {ref.tolist()} (hidden per-object state)')
+                        f'{g.tolist()} but the state-free obj.f on a fresh array gives {ref.tolist()} (hidden per-object state '
+                        f'or a returned array shared between calls)')
         comps = [a for a in case['arrays']] + [op[2] for op in case['ops'] if op[0] == 'set']
-        return reuse_buffer_check(G, cls, case['chems'], comps, case['ops'][0][-1] if case['ops'][0][0] != 'set' else 335.)
+        Ts = [op[3] if op[0] == 'call' else op[2] for op in case['ops'] if op[0] in ('call', 'f')]
+        return reuse_buffer_check(G, cls, case['chems'], comps, Ts[0] if Ts else 335.)
     if case['kind'] == 'ideal':
         chems = [e['chems'][n] for n in case['chems']]
         x = np.array(case['x'], float); x0 = x.copy()
@@ -678,6 +748,14 @@ def _oracle(case):
         if fu(x, case['T'], 101325.) != 1. or fu.f(x, case['T'], 101325., *fu.args) != 1.: return 'ideal: IdealFugacityCoefficients is not 1'
         if pc(case['T'], 101325.) != 1.: return 'ideal: MockPoyintingCorrectionFactors is not 1'
         if not np.array_equal(x, x0): return 'ideal: composition array modified'
+        msg = fresh_result_check(f'IdealActivityCoefficients on {case["chems"]}', lambda: ia(x, case['T']))
+        if msg: return msg
+        # a second instance of the same size, after the caller rewrote a result of the first
+        a1 = ia(x, case['T'])
+        if isinstance(a1, np.ndarray): a1 *= 0.5
+        other = ac.IdealActivityCoefficients(list(reversed(chems)))
+        if not np.all(np.asarray(other(x, case['T'])) == 1.):
+            return f'result-aliased: IdealActivityCoefficients on {case["chems"]}: another instance returns {np.asarray(other(x, case["T"])).tolist()} after the caller rewrote an earlier result in place'
         return None
     G = build(case)
     cls = case['cls']; T = case['T']
